@@ -275,7 +275,20 @@ def to_json(node):
     return [type(node).__name__, tag, kids]
 
 
+_TREES = {}
+
+
 def parse_tree(text):
+    """ast.parse(text.strip(), mode='eval') as JSON (memoised: the same text is used with many evaluators;
+    the result is shared between inputs and never modified)"""
+    if text not in _TREES:
+        if len(_TREES) > 200000:
+            _TREES.clear()
+        _TREES[text] = _parse_tree(text)
+    return _TREES[text]
+
+
+def _parse_tree(text):
     try:
         return to_json(ast.parse(text.strip(), mode='eval'))
     except (SyntaxError, ValueError, RecursionError, MemoryError):
@@ -416,7 +429,6 @@ class C24(Prop):
         'values of accepted expressions outside the and/or-of-names fragment (RankingExpressionEvaluator arithmetic, '
         'comparisons, attributes, subscripts): only accept/reject, canary log and absence of builtins are checked',
         'run-time exceptions of accepted expressions',
-        'a supplied variable called "expr" collides with the positional parameter of _eval (TypeError)',
     ]
     rule = ('catalogue of every kind of Python expression syntax (each ast class that can occur in an eval-mode tree) x '
             '11 placements inside and/or expressions (before/after a short-circuit point, nested, with whitespace) x '
@@ -486,6 +498,10 @@ class C24(Prop):
     def gen(self, tier, rng):
         evs = [('completion', None), ('ranking', None)] + [('custom', w) for w in CUSTOM_WHITELISTS]
         subs = [('x', 'y', 'failed'), ('succeeded', 'nope', 'x'), ('(x or y)', 'failed', 'len')]
+        # histories first: if the answer to a call depends on earlier calls in the process, single-call
+        # cases further down may fail too (workers run many cases), but only a history is a
+        # self-contained replay, and the runner reports the first failure of each kind
+        yield from self.gen_histories(tier, rng, evs, subs)
         k = 0
         # exhaustive over catalogue x contexts x evaluators
         for ci, tpl in enumerate(CATALOGUE):
@@ -502,7 +518,6 @@ class C24(Prop):
         for text in NOT_EXPRESSIONS:
             for ev, wl in evs[:3]:
                 yield self.mk(ev, text, self.std_vars(0), wl)
-        yield from self.gen_histories(tier, rng, evs, subs)
         n_frag, n_rand, n_wl = {'quick': (4000, 3000, 1500), 'thorough': (60000, 45000, 20000)}.get(
             tier, (80000, 60000, 25000))
         all_classes = [n for n, _ in ast_classes()]
@@ -537,9 +552,9 @@ class C24(Prop):
         if tier == 'quick':
             # permissive -> strict, strict -> permissive, and pairs of custom whitelists
             # evs: 0 completion, 1 ranking, 2.. custom (8 = ['AST'] accepts everything, 4 = all expr)
-            pairs = [(1, 0), (8, 0), (4, 0), (3, 0), (2, 0), (0, 1), (0, 8), (0, 4), (8, 1), (4, 1), (1, 8),
-                     (8, 2), (2, 8), (8, 3), (4, 3), (8, 9), (9, 8), (1, 2), (8, 6), (8, 7)]
-            ctxs = ['{X}', '{t} or {X}', '{f} and {X}', '{X} and {t}']
+            pairs = [(1, 0), (8, 0), (4, 0), (3, 0), (2, 0), (0, 1), (0, 8), (8, 1), (4, 1), (1, 8),
+                     (8, 2), (8, 3), (8, 9), (1, 2)]
+            ctxs = ['{X}', '{t} or {X}', '{f} and {X}']
         else:
             pairs = all_pairs
             ctxs = ['{X}', '{t} or {X}', '{f} and {X}', '{X} and {t}', '({t} and ({f} or {X})) or {t}']
@@ -655,8 +670,14 @@ class C24(Prop):
         if len(inputs) < 64:
             return [self.impl(i) for i in inputs]
         import multiprocessing as mp
-        with mp.get_context('fork').Pool(self.workers) as pool:
-            return pool.map(_impl_worker, inputs, chunksize=max(1, len(inputs) // (self.workers * 8)))
+        global _INPUTS
+        _INPUTS = inputs            # inherited by the forked workers: only indices are sent to them
+        try:
+            with mp.get_context('fork').Pool(self.workers) as pool:
+                return pool.map(_impl_worker, range(len(inputs)),
+                                chunksize=max(1, len(inputs) // (self.workers * 8)))
+        finally:
+            _INPUTS = []
 
     def equal(self, model_out, obs):
         if 'seq' in model_out:
@@ -702,5 +723,8 @@ class C24(Prop):
 PROP = C24()
 
 
-def _impl_worker(inp):
-    return PROP.impl(inp)
+_INPUTS = []
+
+
+def _impl_worker(idx):
+    return PROP.impl(_INPUTS[idx])
